@@ -70,7 +70,7 @@ def Term.dt : Term → DT
 def litGt : Term → Term → Bool
   | .num _ v1 _, .num _ v2 _ => decide (v2 < v1)
   | a, b =>
-    if a.dt ≠ b.dt then decide (b.dt.uriRank < a.dt.uriRank)
+    if a.dt ≠ b.dt then Nat.blt b.dt.uriRank a.dt.uriRank
     else match a, b with
       | .str l1 g1, .str l2 g2 =>
         if g1 ≠ g2 then (if g1 = [] then false else if g2 = [] then true else strLt g2 g1)
@@ -101,13 +101,13 @@ def termGt : Term → Term → Bool
 
 /-- `_val(a) < _val(b)`: Python compares the tuples item by item with `==`, then `<` on the first difference -/
 def keyLt (a b : Val) : Bool :=
-  if valRank a ≠ valRank b then decide (valRank a < valRank b)
+  if valRank a ≠ valRank b then Nat.blt (valRank a) (valRank b)
   else match a, b with
     | some x, some y => if x = y then false else termLt x y
     | _, _ => false
 
 def keyGt (a b : Val) : Bool :=
-  if valRank a ≠ valRank b then decide (valRank b < valRank a)
+  if valRank a ≠ valRank b then Nat.blt (valRank b) (valRank a)
   else match a, b with
     | some x, some y => if x = y then false else termGt x y
     | _, _ => false
